@@ -353,6 +353,11 @@ def realise_expr(item):
         k0 = ufl.Coefficient(ufl.FunctionSpace(dom, make_element("DG0", cell, gd)))
         g2 = ufl.Coefficient(V)
         e = grad(k0 + g2) + grad(k0)
+    elif term == "celim":
+        # the first constant disappears under the gradient, the second survives: the kernel reads it at its position
+        # among the constants of the expression as written, and the descriptor must count both
+        K0, K1 = ufl.Constant(dom), ufl.Constant(dom)
+        e = grad(K0 + K1 * f) + grad(K0 * K0)
     elif term == "fg":
         e = coef("P1") * f + coef("DG0")
     elif term == "un":
